@@ -746,3 +746,91 @@ func TestC17RandomBytes(t *testing.T) {
 }
 
 var _ = reflect.DeepEqual
+
+// ---- what the library's dialers produce
+
+// TestC17Dialer enumerates the DialConfig grid. Every dialer of the library builds its parameter set with
+// DialConfig.NegotiationParams and derives its own compression settings from that set and its own configuration; the
+// accepting end derives its settings from the set it decoded and *its* defaults. The property's parenthesis ("as every
+// dialer of the library produces") is judged here: the set names type, level and window, survives every carrier, and both
+// ends arrive at the same mode, level and window whatever the acceptor's base configuration is.
+func TestC17Dialer(t *testing.T) {
+	type cell struct {
+		enc    int
+		enable bool
+		dct    bool
+		level  int
+	}
+	dencs := []transport.EncodingName{transport.EncodingNameJSON, transport.EncodingNameProtobuf}
+	dwins := []int{0, 1, 8, 15, 32}
+	var cells []cell
+	for e := range dencs {
+		for _, en := range []bool{false, true} {
+			for _, dct := range []bool{false, true} {
+				for l := 0; l <= 9; l++ {
+					cells = append(cells, cell{e, en, dct, l})
+				}
+			}
+		}
+	}
+	meta := vrun.Meta{Property: "C17", Workload: "TestC17Dialer", Total: len(cells), Exhaustive: true,
+		Rule: "exhaustive grid encoding{json,proto} x Enable x DisableContextTakeover x Level 0..9; each case sweeps WindowBits{0,1,8,15,32} x reconnect x 5 group-field variants: DialConfig.NegotiationParams must name type, level and window, pass Validate, survive the four carriers, and the configuration the acceptor derives (four base configurations) must equal the one the dialer derives from its own configuration; all cases are distinct; non-trivial = every set of the cell was derived on both ends",
+		Assumptions: []string{"the dialer derives its settings as the library's dialers do: params.CompressConfig(dialConfig.CompressConfig)", "two disabled configurations are equal whatever their other fields say"}}
+	vrun.Loop(t, meta, 0, func(c *vrun.Case) vrun.Result {
+		cl := cells[c.Index]
+		res := vrun.Hold(fmt.Sprintf("dial:enc=%q,enable=%v,dct=%v,level=%d", dencs[cl.enc], cl.enable, cl.dct, cl.level), true)
+		res.Desc = map[string]any{"enc": dencs[cl.enc], "enable": cl.enable, "dct": cl.dct, "level": cl.level, "windows": "0,1,8,15,32"}
+		for _, w := range dwins {
+			for _, rc := range []bool{false, true} {
+				for _, g := range groups {
+					dc := transport.DialConfig{Address: "example.com:443", EncodingName: dencs[cl.enc],
+						CompressConfig: compress.Config{Enable: cl.enable, Level: cl.level, DisableContextTakeover: cl.dct, WindowBits: w},
+						TransportID:    transport.TransportID(g.TID), Reconnect: rc,
+						TransportGroupID: transport.TransportGroupID(g.TGID), TransportGroupTotalCount: g.TGCount, TransportGroupIndex: g.TGIdx}
+					p := dc.NegotiationParams()
+					desc := map[string]any{"dial_config": fmt.Sprintf("%+v", dc), "params": show(p)}
+					if p.Compress == "" || p.CompressLevel == nil || p.CompressWindowBits == nil {
+						return vrun.Violation("a dialer's parameter set does not name its compression type, level and window", "dialer-params-unnamed", desc)
+					}
+					wantType := compress.TypeContextTakeOver
+					if cl.dct {
+						wantType = compress.TypePerMessage
+					}
+					if p.Compress != wantType || *p.CompressLevel != cl.level || *p.CompressWindowBits != w || p.Encoding != dencs[cl.enc] || p.Reconnect != rc ||
+						string(p.TransportID) != g.TID || string(p.TransportGroupID) != g.TGID || p.TransportGroupTotalCount != g.TGCount || p.TransportGroupIndex != g.TGIdx {
+						return vrun.Violation("a dialer's parameter set differs from its configuration", "dialer-params-wrong", desc)
+					}
+					pv := p
+					lv, wb := *p.CompressLevel, *p.CompressWindowBits
+					pv.CompressLevel, pv.CompressWindowBits = &lv, &wb
+					if err := pv.Validate(); err != nil {
+						desc["err"] = err.Error()
+						return vrun.Violation("a dialer's parameter set is refused by Validate", "dialer-params-refused", desc)
+					}
+					mine := p.CompressConfig(dc.CompressConfig)
+					for _, car := range carriers {
+						q, err := car.rt(p)
+						if err != nil {
+							desc["err"] = err.Error()
+							return vrun.Violation("a dialer's parameter set does not survive carrier "+car.name, "dialer-roundtrip-error:"+car.name, desc)
+						}
+						if err := q.Validate(); err != nil {
+							desc["err"] = err.Error()
+							return vrun.Violation("the acceptor refuses a dialer's parameter set after carrier "+car.name, "dialer-roundtrip-refused:"+car.name, desc)
+						}
+						for _, b := range bases {
+							theirs := q.CompressConfig(b)
+							if theirs.Enable != mine.Enable || (mine.Enable && (theirs.Level != mine.Level || theirs.WindowBits != mine.WindowBits || theirs.DisableContextTakeover != mine.DisableContextTakeover)) {
+								desc["carrier"], desc["acceptor_base"], desc["dialer"], desc["acceptor"] = car.name, fmt.Sprintf("%+v", b), fmt.Sprintf("%+v", mine), fmt.Sprintf("%+v", theirs)
+								return vrun.Violation("dialer and acceptor derive different compression settings", "dialer-acceptor-differ:"+car.name, desc)
+							}
+							res.Stat("derivations", 1)
+						}
+					}
+					res.Stat("sets", 1)
+				}
+			}
+		}
+		return res
+	})
+}
